@@ -431,3 +431,120 @@ class SFNTWriterClose(_CloseBase):
         prop("directory-sorted-with-OT-search-fields", lambda a, old, r: SFNTWriterClose._dir_ok(a)),
         prop("checkSumAdjustment-makes-file-sum-B1B0AFBA", lambda a, old, r: SFNTWriterClose._adjust_ok(a)),
     ]
+
+
+# -- calcChecksum for data of ANY length (block loop cut by invariant) -------------------------
+# Ghost: the byte string PAD = data zero-padded to a multiple of four; W(k) = big-endian word k
+# of PAD; SUM(a, b) = W(a) + ... + W(b-1) with SUM(a, a) = 0 and SUM(a, c) = SUM(a, b) + SUM(b, c).
+# The OT checksum IS SUM(0, len(PAD)/4) mod 2**32.  The model of `sum(struct.unpack(">%dL" % n,
+# block))` returns SUM over the word window the block occupies in PAD.
+
+from pyvc import loopcut as _lc
+from pyvc.loopcut import LoopSpec
+from pyvc.models import GhostWords
+
+
+class _WordSums:
+    def __init__(self):
+        I = _z3.IntSort()
+        self.SUM = _z3.Function("SUMW", I, I, I)
+
+    def window(self, a, b):
+        return _sym.SymNum(self.SUM(_sym._lift(a).t, _sym._lift(b).t))
+
+    def assume_split(self, a, b, c):
+        cx = _sym.ctx()
+        a, b, c = (_sym._lift(x).t for x in (a, b, c))
+        cx.assume_term(self.SUM(a, c) == self.SUM(a, b) + self.SUM(b, c))
+
+    def assume_empty(self, a):
+        a = _sym._lift(a).t
+        _sym.ctx().assume_term(self.SUM(a, a) == 0)
+
+
+def _mk_sum(ws):
+    import builtins
+
+    def sum_(x, *rest):
+        if isinstance(x, GhostWords):
+            # the block is a window of PAD starting at byte offset `start` (first segment's offset)
+            segs = x.blob.segs
+            if not segs:
+                return 0
+            first = segs[0]
+            start = first[2] if first[0] == "atom" else None
+            if start is None or any(sg[0] != "zero" for sg in segs[1:]):
+                # only `data ++ NUL padding` is the ghost string PAD; anything else is not modelled
+                raise _sym.Unsupported("word sum of a block that is not a window of data + zero padding")
+            a = start // 4 if not isinstance(start, int) else start // 4
+            return ws.window(a, a + x.count)
+        return builtins.sum(x, *rest)
+    return sum_
+
+
+def _cs_havoc(ws):
+    def havoc(F, env, i, n):
+        # words per block = 1024; facts about SUM needed at this cut: additivity around the block
+        wpb = env.blockSize // 4          # words per block, from the code's own blockSize
+        lo = i * wpb
+        nw = env.g.nwords
+        hi = _sym.Ite(lo + wpb <= nw, lo + wpb, nw)
+        ws.assume_split(0, lo, hi)
+        return {"value": F.int("value", 0, 2 ** 32 - 1), "block": None, "longs": None}
+    return havoc
+
+
+@contract
+class CalcChecksumAnyLength(Contract):
+    """calcChecksum(data) == (sum of the big-endian words of data zero-padded to a multiple of
+    four) mod 2**32 for data of EVERY length; invariant of the 4096-byte block loop:
+    value == SUM(0, 1024*i) mod 2**32."""
+    module = "fontTools.ttLib.sfnt"
+    qualname = "calcChecksum"
+    props = ("C04", "C01")
+    timeout_ms = 20000
+
+    def rebind(self):
+        self.ws = _WordSums()
+        d = dict(std("struct", "len", "bytes", "int"), range=_lc.range_, sum=_mk_sum(self.ws))
+        d["__fmt__"] = True
+        return d
+
+    @property
+    def cuts(self):
+        ws_holder = self
+
+        def inv(env, i, n):
+            nw = env.g.nwords
+            wpb = env.blockSize // 4
+            done = _sym.Ite(i * wpb <= nw, i * wpb, nw)
+            return And(eq(env.value, ws_holder.ws.window(0, done) % 2 ** 32), env.value >= 0)
+
+        def ghost(env):
+            from types import SimpleNamespace
+            from pyvc.models import len_
+            return SimpleNamespace(nwords=len_(env.data) // 4)
+
+        def havoc(F, env, i, n):
+            return _cs_havoc(ws_holder.ws)(F, env, i, n)
+
+        return {"calcChecksum": {0: LoopSpec(modifies=["value", "block", "longs"], invariant=inv, havoc=havoc, ghost=ghost)}}
+
+    def args(self, S, variant):
+        if S.concrete:
+            return dict(data=S.values.get("data") or b"")
+        at = Atom("data")
+        S.ctx.symbols["data"] = ("bytes", at.arr, at.n.t)
+        S.ctx.assume_term(at.n.t >= 0)
+        self.ws.assume_empty(0)
+        self._n = at.n
+        return dict(data=at.blob())
+
+    @property
+    def ensures(self):
+        def post(a, old, r):
+            if isinstance(a.data, bytes):
+                return eq(r, spec_checksum(list(a.data)))
+            nw = (self._n + 3) // 4
+            return eq(r, self.ws.window(0, nw) % 2 ** 32)
+        return [prop("equals-sum-of-all-words-mod-2^32", post)]
